@@ -208,8 +208,8 @@ type tally struct {
 
 // kindsOf gives the model's reading of every entry of a list: "first" (first
 // valid signature of a non-collector member: the only entries that count),
-// "repeat" (further valid signature of a member or of the collector),
-// "collector" (first valid signature of the collector), "nonmember", "otherid",
+// "repeat" (further valid signature of such a member), "collector" (any valid
+// signature of the collector itself), "nonmember", "otherid",
 // "corrupt" (corrupt or empty), "mismatch".
 func kindsOf(n int, collector string, es []*entry) []string {
 	mem := map[string]bool{}
@@ -224,10 +224,10 @@ func kindsOf(n int, collector string, es []*entry) []string {
 			out[i] = "nonmember"
 		case e.valid:
 			switch {
-			case seen[e.addr]:
-				out[i] = "repeat"
 			case e.addr == collector:
 				out[i] = "collector"
+			case seen[e.addr]:
+				out[i] = "repeat"
 			default:
 				out[i] = "first"
 			}
@@ -245,6 +245,7 @@ func kindsOf(n int, collector string, es []*entry) []string {
 
 func tallyOf(n int, collector string, es []*entry) tally {
 	t := tally{Threshold: threshold(n)}
+	seenSender := false
 	for i, k := range kindsOf(n, collector, es) {
 		if i == 0 {
 			t.FirstIsMember = k == "first" || k == "collector"
@@ -253,13 +254,22 @@ func tallyOf(n int, collector string, es []*entry) tally {
 		case "first":
 			t.Distinct++
 		case "repeat":
-			if es[i].addr == collector {
-				t.Collector++
+			t.Repeats++
+		case "collector":
+			// A certificate does not name its collector, and the sender of a
+			// proposal may carry a certificate that ANOTHER validator collected and
+			// that contains the sender's own vote (the fork case of the repository's
+			// TestSMR: A re-proposes round 2 with the round-1 certificate B
+			// collected, votes [A, C]). Excluding the sender's signature would
+			// refuse that honest certificate, so the sound reading of "besides the
+			// collector" without knowing the collector is: the sender's signature
+			// counts like any other member's, once.
+			if !seenSender {
+				seenSender = true
+				t.Distinct++
 			} else {
 				t.Repeats++
 			}
-		case "collector":
-			t.Collector++
 		case "nonmember":
 			t.NonMember++
 		case "otherid":
@@ -286,7 +296,9 @@ func (t tally) classify() string {
 	case t.Distinct+col1 >= need:
 		return "c14.collector_own_signature_counts"
 	case t.Distinct+t.Repeats+t.Collector >= need:
-		// needs repeated entries (of the collector, or of members on top of the collector's own)
+		if t.Repeats == 0 { // the collector's own signature, listed more than once
+			return "c14.collector_own_signature_counts"
+		}
 		return "c14.repeated_member_signature_counts"
 	case t.NonMember > 0 && t.Distinct+t.Repeats+t.Collector+t.NonMember >= need:
 		return "c14.non_member_signature_counts"
